@@ -23,29 +23,29 @@ type OpLog struct {
 // Case is one self-contained experiment: an encoded instruction and the
 // architectural pre-state it is executed from.
 type Case struct {
-	ID    int                 `json:"id"`
-	Arch  string              `json:"arch"`
-	St    string              `json:"st"`
-	PCC   string              `json:"pcc"`
-	F     string              `json:"f"`
-	Op    int                 `json:"op"`
-	Enc   []byte              `json:"enc"`
-	SCC   int                 `json:"scc"`
-	VCC   uint64              `json:"vcc"`
-	EXEC  uint64              `json:"exec"`
-	PC    uint64              `json:"pc"`
-	M0    uint32              `json:"m0"`
-	S     map[int]uint32      `json:"s,omitempty"`
-	V     map[int][]uint32    `json:"v,omitempty"`
-	Bg    int64               `json:"bg"`
-	LDS   []byte              `json:"lds,omitempty"`
-	MBase uint64              `json:"mbase,omitempty"`
-	Mem   []byte              `json:"mem,omitempty"`
-	Ops   map[string]OpLog    `json:"ops"`
-	Fld   map[string]int      `json:"fld,omitempty"` // imm, off0, off1, abs, neg, saddr, seg ...
-	Perm  []int               `json:"perm,omitempty"`
-	Pair  int                 `json:"pair,omitempty"`
-	Tag   string              `json:"tag,omitempty"`
+	ID    int              `json:"id"`
+	Arch  string           `json:"arch"`
+	St    string           `json:"st"`
+	PCC   string           `json:"pcc"`
+	F     string           `json:"f"`
+	Op    int              `json:"op"`
+	Enc   []byte           `json:"enc"`
+	SCC   int              `json:"scc"`
+	VCC   uint64           `json:"vcc"`
+	EXEC  uint64           `json:"exec"`
+	PC    uint64           `json:"pc"`
+	M0    uint32           `json:"m0"`
+	S     map[int]uint32   `json:"s,omitempty"`
+	V     map[int][]uint32 `json:"v,omitempty"`
+	Bg    int64            `json:"bg"`
+	LDS   []byte           `json:"lds,omitempty"`
+	MBase uint64           `json:"mbase,omitempty"`
+	Mem   []byte           `json:"mem,omitempty"`
+	Ops   map[string]OpLog `json:"ops"`
+	Fld   map[string]int   `json:"fld,omitempty"` // imm, off0, off1, abs, neg, saddr, seg ...
+	Perm  []int            `json:"perm,omitempty"`
+	Pair  int              `json:"pair,omitempty"`
+	Tag   string           `json:"tag,omitempty"`
 }
 
 type Rec map[string]interface{}
